@@ -216,6 +216,13 @@ func (tb *Terms) of(v ssa.Value, d int) *Term {
 		return &Term{Op: "Lookup", Args: []*Term{tb.of(x.X, d+1), tb.of(x.Index, d+1)}, V: v}
 	case *ssa.UnOp:
 		if x.Op == token.MUL {
+			// a package-level variable that only caches reflect.TypeOf(<literal>) — set once in the package
+			// initialiser, never written or address-taken anywhere else — reads as that call
+			if g, ok := x.X.(*ssa.Global); ok {
+				if sv := initTypeOf(g); sv != nil {
+					return tb.of(sv, d+1)
+				}
+			}
 			if cell, ok := x.X.(*ssa.Alloc); ok && singleStore(cell) == nil {
 				if fv := forwardedStore(x, cell); fv != nil {
 					return tb.of(fv, d+1)
@@ -605,4 +612,77 @@ func forwardedStore(ld *ssa.UnOp, cell *ssa.Alloc) ssa.Value {
 // ContainsValue: some subterm of t was built from the SSA value v.
 func (t *Term) ContainsValue(v ssa.Value) bool {
 	return t.Find(func(x *Term) bool { return x.V == v }) != nil
+}
+
+var initTypeOfCache = map[*ssa.Global]ssa.Value{}
+
+// initTypeOf returns the reflect.TypeOf(..) call stored into g by its package's initialiser when that is the only
+// use of g other than loads, and nil otherwise.
+func initTypeOf(g *ssa.Global) ssa.Value {
+	if v, ok := initTypeOfCache[g]; ok {
+		return v
+	}
+	initTypeOfCache[g] = nil
+	if g.Pkg == nil {
+		return nil
+	}
+	var stored ssa.Value
+	nStores, other := 0, false
+	var visit func(f *ssa.Function)
+	visit = func(f *ssa.Function) {
+		for _, b := range f.Blocks {
+			for _, in := range b.Instrs {
+				for _, op := range in.Operands(nil) {
+					if op == nil || *op != ssa.Value(g) {
+						continue
+					}
+					switch x := in.(type) {
+					case *ssa.Store:
+						if x.Addr == ssa.Value(g) && f.Name() == "init" && f.Synthetic != "" {
+							nStores++
+							stored = x.Val
+						} else {
+							other = true
+						}
+					case *ssa.UnOp:
+						if x.Op != token.MUL {
+							other = true
+						}
+					default:
+						other = true
+					}
+				}
+			}
+		}
+		for _, a := range f.AnonFuncs {
+			visit(a)
+		}
+	}
+	for _, m := range g.Pkg.Members {
+		switch x := m.(type) {
+		case *ssa.Function:
+			visit(x)
+		case *ssa.Type:
+			for _, t := range []types.Type{x.Type(), types.NewPointer(x.Type())} {
+				ms := g.Pkg.Prog.MethodSets.MethodSet(t)
+				for i := 0; i < ms.Len(); i++ {
+					if fn := g.Pkg.Prog.MethodValue(ms.At(i)); fn != nil && fn.Pkg == g.Pkg {
+						visit(fn)
+					}
+				}
+			}
+		}
+	}
+	if other || nStores != 1 {
+		return nil
+	}
+	if mi, ok := stored.(*ssa.MakeInterface); ok {
+		stored = mi.X
+	}
+	call, ok := stored.(*ssa.Call)
+	if !ok || call.Call.StaticCallee() == nil || call.Call.StaticCallee().String() != "reflect.TypeOf" {
+		return nil
+	}
+	initTypeOfCache[g] = call
+	return call
 }
